@@ -21,8 +21,13 @@ ASSUMPTIONS = [
     "persistent layer modelled as finite maps (keeper record, native balance record b_<addr>_OLT, contract storage, code) with the "
     "read-your-writes behaviour of storage.State (C09, after fix 34ba69a); gas metering of the store is not modelled (no gas "
     "calculator attached in the harness)",
-    "logs and the access list are covered by the three-way correspondence only (they are part of both models but the "
-    "bisimulation theorem is proved for the account/storage/refund/snapshot core)",
+    "logs, the access list and CreateAccount over an EXISTING account are covered by the three-way correspondence only (they are "
+    "part of both models; C16_bisim is proved for CreateAccount(fresh)/balance/nonce/code/storage/refund/self-destruct/"
+    "Exist/Empty/Snapshot/RevertToSnapshot/Finalise/block commit)",
+    "the Finalise case of C16_bisim is proved under a side condition evaluated at run time on the adapter model (class 5, "
+    "fin_okb): every live object Finalise does not treat as dirty equals its persisted image, and every non-zero dirty slot of an "
+    "object written back has its original value cached; it is computed on every generated Finalise step (never false outside "
+    "the aftermath of C16.stale_dirty_index) but it is not proved to be an invariant",
 ]
 
 TRIGGERS = {1: "C16.removed_account_residue", 2: "C16.create_over_storage", 3: "C16.stale_dirty_index"}
